@@ -192,12 +192,18 @@ def run(ck):
     # proposed fixes/C07-a64-refuse-unrealisable-frames.patch: does finalize refuse AArch64 frames with dynamic alignment / 128-bit vector saves?
     pq = vlib.sh([impl], inp="F 2 0 0 2 0 0 0 0 0 40 32 0 0 255\nF 2 0 16 2 0 0 16 0 0 0 0 0 0 255\n")[1].split("\n")
     r1, r2 = (" L ?" in pq[0]), (len(pq) > 1 and " L ?" in pq[1])
-    a64_refusal = 1 if (r1 and r2) else 0
-    if r1 != r2:
-        ck.violation("C07/a64/refusal-probe-inconsistent", "AArch64 refusal of unrealisable frames is half-applied: dynamic alignment refused=%s, 128-bit vector saves refused=%s" % (r1, r2),
-                     {"command": "F 2 0 16 2 0 0 16 0 0 0 0 0 0 255", "impl": pq[1] if len(pq) > 1 else "", "broken": "tree variant probe"}, no_input=True)
-    ck.log("tree variant: a64 refusal of unrealisable frames %s" % ("present" if a64_refusal else "absent"))
-    mcmds = [c + " " + argstack_of(a) + " 0 %d %d" % (sa_fix, a64_refusal) for c, a in zip(cmds, ri)]
+    # the refusal is committed in /repo (fef32d9): the model always describes it; the probe is a regression detector with the probe frame as input
+    a64_refusal = 1
+    if not (r1 and r2):
+        bad = "F 2 0 0 2 0 0 0 0 0 40 32 0 0 255" if not r1 else "F 2 0 16 2 0 0 16 0 0 0 0 0 0 255"
+        ck.violation("C07/a64/unrealisable-frame-accepted", "%s -> finalize accepts an AArch64 frame the emitters cannot realise (dynamic alignment refused=%s, "
+                     "128-bit vector saves refused=%s)" % (bad, r1, r2), {"command": bad, "impl": pq[0] if not r1 else pq[1]})
+    ck.log("a64 refusal of unrealisable frames %s" % ("present" if (r1 and r2) else "MISSING"))
+    # proposed fixes/C07-final-alignment-truthful.patch: x86-32, natural 4, requested 8: is final_stack_alignment() reported as 4 (what is delivered)?
+    pal = c07_oracle.parse_answer(vlib.sh([impl], inp="F 0 0 0 2 0 0 0 0 0 16 8 0 0 255\n")[1].strip())
+    align_fix = 1 if (pal is not None and pal["final_align"] == 4) else 0
+    ck.log("tree variant: truthful final alignment %s" % ("present" if align_fix else "absent"))
+    mcmds = [c + " " + argstack_of(a) + " 0 %d %d %d" % (sa_fix, a64_refusal, align_fix) for c, a in zip(cmds, ri)]
     rm = run_sharded(model, mcmds) if ri else []
     if isinstance(rm, tuple):
         ck.violation("C07/model-crash", "model driver failed: %s" % (rm,), {"commands": mcmds[:3], "detail": str(rm), "broken": "model driver"}, no_input=True)
@@ -334,6 +340,68 @@ def run(ck):
                              {"command": c, "impl": a, "model": m, "broken": "correspondence of Frame model (coq/theories/Frame/FrameModel.v) with /repo"},
                              no_input=True)
 
+    # frames with argument copies (FuncArgsAssignment: register/stack arguments moved into registers or local slots — the API-level form of
+    # the allocator's kStackArgToStack copies): judged by the python interpreter AND executed on the proven machine (FrameExec.exec_args_frame)
+    nargs_cmds = 2500 if ck.tier == "quick" else 60000
+    acmds = []
+    for _ in range(nargs_cmds):
+        t = c07_gen.gen_frame(rng, tier=ck.tier).split()
+        t[0] = "A"
+        if int(t[10]) > 4096: t[10] = str(int(t[10]) % 4096)
+        t[4] = str(rng.choice([0, 1, 3, 5, 7, 8, 9, 11, 14]))
+        acmds.append(" ".join(t) + " %d" % rng.getrandbits(32))
+    ra_ = run_sharded(impl, acmds)
+    astats = {"frames": len(acmds), "judged": 0, "refused": 0, "machine_ok": 0, "machine_failed": 0, "disagree": 0, "stack_to_stack": 0, "with_da": 0}
+    if isinstance(ra_, tuple):
+        ck.violation("C07/args/harness-crash", "harness failed on A commands: %s" % (ra_,), {"commands": acmds[:2], "broken": "harness"}, no_input=True)
+    else:
+        gcmds, gidx, averd = [], [], []
+        for i, (c, a) in enumerate(zip(acmds, ra_)):
+            v = c07_oracle.judge_args(c, a, ck.seed)
+            averd.append(v)
+            parts = a.split(" | ")
+            if len(parts) != 4:
+                astats["refused"] += 1
+                continue
+            pa = c07_oracle.parse_answer(parts[1])
+            st = parts[2].split(" ", 3)
+            if pa is None or pa["P_berr"] or pa["E_berr"] or st[1] != "0":
+                astats["refused"] += 1
+                continue
+            astats["judged"] += 1
+            astats["with_da"] += pa["has_da"]
+            xt = parts[3].split(); n = int(xt[1])
+            astats["stack_to_stack"] += len([1 for k in range(n) if xt[2 + 4 * k] == "1" and xt[4 + 4 * k] == "1"])
+            t = c.split(); arch = int(t[1])
+            ras = 0 if arch == 2 else (4 if arch == 0 else 8)
+            sp0 = (0x7FFF0000 if arch == 0 else 0x7FFFFFFF0000) - pa["natural"] * (i % 64) - ras
+            cleanup = pa["argstack"] if c07_oracle.callee_pops(arch, int(t[2]), int(t[3])) else 0
+            lsz = max(int(t[10]), 8 * n + 8)
+            gcmds.append("G %d %d %d %s %s %s %d %s %d %d %d %d %s | %s | %s | %s" % (
+                arch, sp0, 0x7123456789 & ((1 << (8 * (4 if arch == 0 else 8))) - 1) | 1, " ".join(str(x) for x in pa["dirty"]),
+                " ".join(str(x) for x in pa["preserved"]), " ".join(str(x) for x in pa["srsize"]), int(t[5]) & 1, t[12], pa["local_off"], lsz, cleanup,
+                n, " ".join(xt[2:]), ";".join(pa["P"]) or "-", st[3], ";".join(pa["E"]) or "-"))
+            gidx.append(i)
+        rg = run_sharded(model, gcmds) if gcmds else []
+        if isinstance(rg, tuple):
+            ck.violation("C07/args/model-crash", "model driver failed on G commands: %s" % (rg,), {"commands": gcmds[:1], "broken": "model driver"}, no_input=True)
+            rg = []
+        gres = dict(zip(gidx, rg))
+        for i, (c, a) in enumerate(zip(acmds, ra_)):
+            keys = [(k, w) for (k, w) in averd[i] if k != "refused"]
+            for (k, w) in keys:
+                stats["oracle_keys"][k] = stats["oracle_keys"].get(k, 0) + 1
+                ck.violation(k, w, {"command": c, "impl": a})
+            if i in gres:
+                code = int(gres[i].split()[1])
+                if code == 0: astats["machine_ok"] += 1
+                else: astats["machine_failed"] += 1
+                if (code != 0) != bool(keys) and not (code == 0 and all(k.split("/")[-1] in ("body-sp-misaligned", "destination-outside-local-area", "writes-into-caller-frame", "unencodable") for k, _ in keys)):
+                    astats["disagree"] += 1
+                    ck.violation("C07/args/semantics-disagree", "%s -> the proven machine (exec_args_frame) says %s, the interpreter says %s" % (c, gres[i], [k for k, _ in keys] or "ok"),
+                                 {"command": c, "impl": a, "machine": gres[i]})
+    stats["argument_copy_frames"] = astats
+
     # frames the Compiler really produces (functions with register pressure, spills, calls, stack arguments, local stack)
     ncomp = 1500 if ck.tier == "quick" else 40000
     ccmds = []
@@ -355,7 +423,7 @@ def run(ck):
                              "in emit_args_assignment): function with stack-passed arguments and a stack slot aligned to more than 16 (%s)" % (c, a), {"command": c, "impl": a})
         good = [(c, a.split(" | ")) for c, a in zip(ccmds, rc_) if a.startswith("C 0 | ")]
         comp_stats["errors"] = len(ccmds) - len(good)
-        mcs = ["F " + parts[1] + " 1 %d %d" % (sa_fix, a64_refusal) for (_c, parts) in good]
+        mcs = ["F " + parts[1] + " 1 %d %d %d" % (sa_fix, a64_refusal, align_fix) for (_c, parts) in good]
         rmc = run_sharded(model, mcs) if good else []
         if isinstance(rmc, tuple):
             ck.violation("C07/compiled/model-crash", "model driver failed: %s" % (rmc,), {"commands": mcs[:2], "broken": "model driver"}, no_input=True)
@@ -389,8 +457,8 @@ def run(ck):
                 found |= ck.violation("C07/compiled/sp-access-outside-declared-areas", "%s -> %s sp-based memory operands of the body lie outside call area, "
                                       "local area and stack arguments (%s)" % (c, h[5], h[7]), rep)
             if len(h) > 8 and h[8] != "0":
-                found |= ck.violation("C07/compiled/local-slot-read-before-written", "%s -> %s reads of local-area slots that no earlier instruction of the "
-                                      "(straight-line) function wrote: an argument/spill was stored at another offset than the body reads (%s)" % (c, h[8], h[7]), rep)
+                found |= ck.violation("C07/compiled/local-slot-read-before-written", "%s -> %s reads of local-area slots that are not written on every path from the function "
+                                      "entry (must-initialised dataflow over the CFG): an argument/spill was stored at another offset than the body reads (%s)" % (c, h[8], h[7]), rep)
             if canon_impl(ans) != m:
                 comp_stats["disagreements"] += 1
                 if not found:
@@ -487,9 +555,9 @@ def run(ck):
 
     # compiled x86-64 functions executed natively under the frame monitor (stack arguments without a register at entry, dynamic
     # alignment => arguments moved into local slots, calls => local_stack_offset != 0, spills, optional FP)
-    ncmds = ["N 1 0 0 0 0 0 0 0 0 0 0 0 0 255 %d" % rng.getrandbits(40) for _ in range(800 if ck.tier == "quick" else 20000)]
+    ncmds = ["N 1 %d 0 0 0 0 0 0 0 0 0 0 0 255 %d" % (rng.choice([0, 1]), rng.getrandbits(40)) for _ in range(800 if ck.tier == "quick" else 20000)]
     rn2 = run_sharded(impl, ncmds)
-    nstats = {"functions": len(ncmds), "ok": 0, "skipped": 0, "failed": 0, "with_da": 0, "with_calls": 0, "with_stack_args": 0, "moved_args_and_call_area": 0}
+    nstats = {"functions": len(ncmds), "win64": len([x for x in ncmds if x.split()[2] == "1"]), "ok": 0, "skipped": 0, "failed": 0, "with_da": 0, "with_calls": 0, "with_stack_args": 0, "moved_args_and_call_area": 0}
     if isinstance(rn2, tuple):
         ck.violation("C07/native-compiled-crash", "native execution of compiled functions died: %s" % (rn2,), {"commands": ncmds[:3], "broken": "native execution"}, no_input=True)
     else:
@@ -521,7 +589,7 @@ def run(ck):
                  "mask classes, size/alignment boundaries, FP/calls/AVX/AVX-512 flags, SA register); a frame is non-trivial when the real prolog has at "
                  "least one instruction (distinct command lines counted)",
          "samples": samples, "distribution": stats, "model_vs_impl_disagreements": disagreements,
-         "tree_variant": {"a64_refusal_of_unrealisable_frames": bool(a64_refusal)}, "frames_judged_by_oracle": len(verdicts), "traces_validated_against_impl": len(cmds)},
+         "tree_variant": {"truthful_final_alignment": bool(align_fix)}, "frames_judged_by_oracle": len(verdicts), "traces_validated_against_impl": len(cmds)},
         assumptions=["the C++ harness calls the real FuncDetail::init, FuncFrame::init/finalize and BaseEmitter::emit_prolog/emit_epilog of /repo's working tree",
                      "theorems are about the Gallina model (FrameModel.v) and the abstract machine (FrameMachine.v); the model is tied to the code by the "
                      "exact differential of this check; the machine's instruction semantics are trusted (validated by the python interpreter and native runs)",
